@@ -289,14 +289,15 @@ func calcSegmentAvailabilityTime(a *asset, rep *RepData, nr uint32, cfg *Respons
 	seg := rep.Segments[relNr]
 	mediaRef := cfg.StartTimeS * rep.MediaTimescale // TODO. Add period offset
 
-	// Check interval validity
-	segAvailTimeS := float64(int(seg.EndTime)+wrapTime+mediaRef) / float64(rep.MediaTimescale)
+	segAvailTime := int(seg.EndTime) + wrapTime + mediaRef // In media timescale
 	ato := cfg.getAvailabilityTimeOffsetS()
 	if ato == +math.Inf(1) {
 		return int64(cfg.StartTimeS) * 1000, nil
 	}
-	segAvailTimeS -= ato
-	milliSeconds := int64(segAvailTimeS * 1_000)
+	// Use integers and round up to get the first millisecond at which the segment is available.
+	ts := rep.MediaTimescale
+	milliSeconds := int64(segAvailTime/ts*1000 + (segAvailTime%ts*1000+ts-1)/ts)
+	milliSeconds -= int64(math.Round(ato * 1000))
 	return milliSeconds, nil
 }
 
